@@ -1,4 +1,96 @@
 import MirGen.ChordCmp
+import MirProofs.Lemmas.PyCmp
+import MirProofs.Props.C11_GenFns
+set_option linter.unusedSimpArgs false
 namespace Mir.C11.GenCmp
-theorem placeholder : True := trivial
+open Mir Mir.ChordCompare Mir.PyCmp
+open Mir.Chord (pyValidate toEnc Encoded)
+
+theorem forM_validate (ls : List PyCmp.Str) :
+    ls.forM (fun (s : PyCmp.Str) => PyCmp.validate_chord_label s) = validateAll ls := by
+  induction ls with
+  | nil => rfl
+  | cons s r ih =>
+    have hc : (s :: r).forM (fun (s : PyCmp.Str) => PyCmp.validate_chord_label s) =
+        (do PyCmp.validate_chord_label s; r.forM fun (s : PyCmp.Str) => PyCmp.validate_chord_label s) := rfl
+    rw [hc, ih]
+    simp only [validateAll, PyCmp.validate_chord_label]
+    cases pyValidate s <;> rfl
+
+theorem forM_pair {α : Type} (a b : α) (f : α → Py Unit) : [a, b].forM f = (do f a; f b) := by
+  show (do f a; (do f b; (pure PUnit.unit : Py PUnit))) = _
+  cases f a <;> simp [bind, Except.bind]
+  cases f b <;> rfl
+
+theorem validate_eq_model (ref est : List PyCmp.Str) : Mir.Gen.chord.validate ref est = validateLists ref est := by
+  unfold Mir.Gen.chord.validate validateLists
+  simp only [forM_pair, forM_validate]
+  by_cases h : ref.length = est.length
+  · simp [h]
+    cases validateAll ref <;> simp [bind, Except.bind]
+  · have : ((ref.length : Int) != (est.length : Int)) = true := by simp; omega
+    simp [h, this, bind, Except.bind]
+
+/-- the vector-level primitives, unfolded to `map` / `zipWith` on tabulations -/
+macro "cmp_vec" : tactic => `(tactic| simp [bind, Except.bind, pure, Except.pure, *, vecEq, bvecAnd, bvecOr, zipSame, zipWith_tab, map_tab,
+  astypeFloat, maskSet, anyAxis1, allAxis1, matCmpS, vecCmpS, bvecEq0, col, sliceCols, matEq, matEqRow, sameShape, all_tab,
+  sumAxis1, countAxis1, onesBoolLike, npArray, listTake, all_zipWith_beq])
+
+/-- the row level: both sides are functions of row `i` of the two encodings -/
+macro "cmp_row" : tactic => `(tactic| (apply tab_congr; intro i _; simp [ChordCompare.cmp, ChordCompare.root, ChordCompare.thirds, ChordCompare.thirdsInv, ChordCompare.triads, ChordCompare.triadsInv, ChordCompare.tetrads, ChordCompare.tetradsInv, maskX, anyNeg, b2i, eqRoot, eqBass, eqThird, eqPrefix8, eqAll, Cmp.test, *]))
+
+macro "cmp_frame" f:ident : tactic => `(tactic| (
+  unfold $f cmpLabels
+  rw [validate_eq_model]
+  rcases hv : validateLists _ _ with e | u
+  · rfl
+  simp only [PyCmp.encode_many, Chord.pyEncodeMany]))
+
+/-- the common frame: validation, the two `encode_many` calls (reference first), then the pure array part on tabulated
+    rows, then the row level -/
+macro "cmp_proof" f:ident r:ident e:ident : tactic => `(tactic| (
+  unfold $f cmpLabels
+  rw [validate_eq_model]
+  cases hv : validateLists $r $e with
+  | error e => rfl
+  | ok u =>
+    simp only [PyCmp.encode_many, Chord.pyEncodeMany]
+    cases hr : Chord.encodeAll false $r with
+    | error e => rfl
+    | ok rs =>
+      cases he : Chord.encodeAll false $e with
+      | error e => rfl
+      | ok es =>
+        obtain ⟨n, R, E, hn, hR, hE, h1, h2, h3, h4, h5, h6, hz⟩ := rows_tab (validateLists_ok_length hv) hr he
+        have hbR := fun i => Reachable.bm_length (hR i)
+        have hbE := fun i => Reachable.bm_length (hE i)
+        cmp_vec
+        cmp_row))
+
+/-! ## the tie: each regenerated comparison function is the hand model, for ALL label lists -/
+
+theorem root_eq_model (ref est : List PyCmp.Str) : Mir.Gen.chord.root ref est = cmpLabels .root ref est := by
+  cmp_proof Mir.Gen.chord.root ref est
+
+theorem thirds_eq_model (ref est : List PyCmp.Str) : Mir.Gen.chord.thirds ref est = cmpLabels .thirds ref est := by
+  cmp_proof Mir.Gen.chord.thirds ref est
+
+theorem thirds_inv_eq_model (ref est : List PyCmp.Str) :
+    Mir.Gen.chord.thirds_inv ref est = cmpLabels .thirdsInv ref est := by
+  cmp_proof Mir.Gen.chord.thirds_inv ref est
+
+theorem triads_eq_model (ref est : List PyCmp.Str) : Mir.Gen.chord.triads ref est = cmpLabels .triads ref est := by
+  cmp_proof Mir.Gen.chord.triads ref est
+
+theorem triads_inv_eq_model (ref est : List PyCmp.Str) :
+    Mir.Gen.chord.triads_inv ref est = cmpLabels .triadsInv ref est := by
+  cmp_proof Mir.Gen.chord.triads_inv ref est
+
+theorem tetrads_eq_model (ref est : List PyCmp.Str) : Mir.Gen.chord.tetrads ref est = cmpLabels .tetrads ref est := by
+  cmp_proof Mir.Gen.chord.tetrads ref est
+
+theorem tetrads_inv_eq_model (ref est : List PyCmp.Str) :
+    Mir.Gen.chord.tetrads_inv ref est = cmpLabels .tetradsInv ref est := by
+  cmp_proof Mir.Gen.chord.tetrads_inv ref est
+
 end Mir.C11.GenCmp
